@@ -62,15 +62,15 @@ class _dtype_value_context:
         self._instance_float_value = float_value
         self._instance_double_value = double_value
         self._instance_half_value = half_value
+        self._saved = []
 
     def __enter__(
         self,
     ):
-        # What __exit__ restores is what is visible when the block is entered (not when the object was created)
-        self._orig_float_value = self.__class__.value(torch.float)
-        self._orig_double_value = self.__class__.value(torch.double)
-        self._orig_half_value = self.__class__.value(torch.half)
-        self.__class__._set_value(
+        # What __exit__ restores is what is visible when the block is entered (one entry per use of this object)
+        cls = self.__class__
+        self._saved.append((cls.value(torch.float), cls.value(torch.double), cls.value(torch.half)))
+        cls._set_value(
             self._instance_float_value,
             self._instance_double_value,
             self._instance_half_value,
@@ -79,9 +79,7 @@ class _dtype_value_context:
     def __exit__(self, *args):
         # Restore unconditionally: a previous value of None (e.g. no default for half) must be restored too
         cls = self.__class__
-        cls._global_float_value = self._orig_float_value
-        cls._global_double_value = self._orig_double_value
-        cls._global_half_value = self._orig_half_value
+        cls._global_float_value, cls._global_double_value, cls._global_half_value = self._saved.pop()
         return False
 
 
@@ -114,14 +112,15 @@ class _feature_flag:
     def __init__(self, state=True):
         self.prev = self.__class__._state
         self.state = state
+        self._saved = []
 
     def __enter__(self):
-        # What __exit__ restores is what is visible when the block is entered (not when the object was created)
-        self.prev = self.__class__._state
+        # What __exit__ restores is what is visible when the block is entered (one entry per use of this object)
+        self._saved.append(self.__class__._state)
         self.__class__._set_state(self.state)
 
     def __exit__(self, *args):
-        self.__class__._set_state(self.prev)
+        self.__class__._set_state(self._saved.pop())
         return False
 
 
@@ -139,16 +138,17 @@ class _value_context:
     def __init__(self, value):
         self._orig_value = self.__class__.value()
         self._instance_value = value
+        self._saved = []
 
     def __enter__(
         self,
     ):
-        # What __exit__ restores is what is visible when the block is entered (not when the object was created)
-        self._orig_value = self.__class__.value()
+        # What __exit__ restores is what is visible when the block is entered (one entry per use of this object)
+        self._saved.append(self.__class__.value())
         self.__class__._set_value(self._instance_value)
 
     def __exit__(self, *args):
-        self.__class__._set_value(self._orig_value)
+        self.__class__._set_value(self._saved.pop())
         return False
 
 
@@ -219,15 +219,16 @@ class fast_pred_var(_feature_flag):
     def __init__(self, state=True, num_probe_vectors=1):
         self.orig_value = self.__class__.num_probe_vectors()
         self.value = num_probe_vectors
+        self._saved_num_probe_vectors = []
         super().__init__(state)
 
     def __enter__(self):
-        self.orig_value = self.__class__.num_probe_vectors()
+        self._saved_num_probe_vectors.append(self.__class__.num_probe_vectors())
         self.__class__._set_num_probe_vectors(self.value)
         super().__enter__()
 
     def __exit__(self, *args):
-        self.__class__._set_num_probe_vectors(self.orig_value)
+        self.__class__._set_num_probe_vectors(self._saved_num_probe_vectors.pop())
         return super().__exit__()
 
 
